@@ -427,6 +427,12 @@ fn build_outcomes() -> Outcomes {
     let mut cases = Vec::new();
     for k in 0..KINDS {
         cases.push((k, Fail::None, 0));
+        // (for Fail::None the step number selects what the master is waiting for when the request
+        // is issued: 1 = a keep-alive deadline 60 s away, 2 = a periodic poll 60 s away, on the
+        // same association; 3 = a periodic poll on the other association)
+        cases.push((k, Fail::None, 1));
+        cases.push((k, Fail::None, 2));
+        cases.push((k, Fail::None, 3));
         for f in [Fail::Timeout, Fail::Eof, Fail::Disable, Fail::RemoveAssociation, Fail::NoisyTimeout, Fail::OtherAssociationReplies, Fail::RemoveOtherAssociation] {
             for step in 0..4 {
                 cases.push((k, f, step));
@@ -454,16 +460,36 @@ impl CaseSpace for Outcomes {
         let mut sim = MSim::new(&MCfg { reconnect_delay_ms: 500, ..Default::default() }, 1);
         let mut cfg = quiet();
         cfg.max_queued_user_requests = 4;
+        let idle_source = match self.cases.get(index) {
+            Some((_, Fail::None, s)) => *s,
+            _ => 0,
+        };
+        if idle_source == 1 {
+            cfg.keep_alive_timeout = Some(Duration::from_secs(60));
+        }
         let Some(a) = sim.add_association(OUTSTATION_ADDR, cfg) else {
             res.violation = Some(Violation::new("C16.P0", "setup", "add_association".to_string()));
             return res;
         };
-        if sim.add_association(OTHER_OUTSTATION, quiet()).is_none() {
+        let Some(other) = sim.add_association(OTHER_OUTSTATION, quiet()) else {
             res.violation = Some(Violation::new("C16.P0", "setup", "add second association".to_string()));
             return res;
+        };
+        if idle_source >= 2 {
+            let mut h = if idle_source == 2 { a.clone() } else { other.clone() };
+            let r = sim.call_now("add_poll", async move { h.add_poll(ReadRequest::class_scan(Classes::class0()), Duration::from_secs(60)).await });
+            if !matches!(r, Some(Ok(_))) {
+                res.violation = Some(Violation::new("C16.P0", "setup", "add_poll".to_string()));
+                return res;
+            }
         }
         sim.take_out();
         sim.take_cb();
+        if idle_source != 0 {
+            // the master has gone to sleep until the deadline
+            sim.advance(10);
+            sim.take_out();
+        }
         if index == self.cases.len() {
             // request queue full: every submission still gets exactly one outcome
             for _ in 0..8 {
@@ -623,6 +649,35 @@ impl CaseSpace for Outcomes {
                 format!("step {at_step}: {}", done[0]),
             ));
             return res;
+        }
+        if done[0].contains("Shutdown") {
+            // the master task is still running in every case of this space
+            res.violation = Some(Violation::new(
+                "C16.U6",
+                format!("shutdown-reported-by-a-running-master:kind{k}:{fail:?}"),
+                format!("step {at_step}: {}", done[0]),
+            ));
+            return res;
+        }
+        if fail == Fail::RemoveAssociation && injected {
+            // the same request addressed to the association that no longer exists: exactly one
+            // outcome, an error, and not "shutdown"
+            sim.take_out();
+            let name2 = submit(&mut sim, &a, k);
+            sim.advance(2 * RT);
+            let (cbs2, _) = sim.take_cb();
+            let again: Vec<&String> = cbs2.iter().filter_map(|c| if let MCb::Done(n, r) = c { if n == name2 { Some(r) } else { None } } else { None }).collect();
+            if transcript {
+                res.transcript.push(format!("resubmitted after removal: {again:?}"));
+            }
+            if again.len() != 1 || again[0].starts_with("Ok") || again[0].contains("Shutdown") {
+                res.violation = Some(Violation::new(
+                    "C16.U7",
+                    format!("request-to-removed-association-not-refused-as-such:kind{k}"),
+                    format!("{again:?}"),
+                ));
+                return res;
+            }
         }
         if !injected && !ok {
             res.violation = Some(Violation::new(
